@@ -152,6 +152,17 @@ enum Outcome {
     FalseAccept,
 }
 
+/// Canonical violation key: driver + fault class + direction + the two verdict kinds. The shape is
+/// NOT part of the key (the smallest violating shape is kept as the replay). The two classes that
+/// exist only to pin down a known finding are keyed without the verdict kinds (one defect, one key).
+fn key_of(driver: &str, class: &str, o: Outcome, n: &Verdict, c: &Verdict) -> String {
+    if class == "honest:round_below_global_max_height" || class == "mal:arity_jumps_over_zero_rollin" {
+        format!("{driver}|{class}|{}", direction(o))
+    } else {
+        format!("{driver}|{class}|{}|native={}|circuit={}", direction(o), n.tag(), c.tag())
+    }
+}
+
 fn direction(o: Outcome) -> &'static str {
     match o {
         Outcome::FalseReject => "native_accept_circuit_reject",
@@ -340,9 +351,7 @@ fn record(env: &Env, s: &dyn Subject, class: &str, what: &str, case: Value, o: O
     };
     match o {
         Outcome::FalseAccept | Outcome::FalseReject => {
-            // canonical key: driver + fault class + direction + the two verdict kinds; the shape is
-            // NOT part of the key — the smallest violating shape is kept as the replay
-            let key = format!("{}|{}|{}|native={}|circuit={}", s.driver(), class, direction(o), n.tag(), c.tag());
+            let key = key_of(s.driver(), class, o, n, c);
             env.report.violation_sized(
                 key,
                 format!("{} {}: native {} but circuit {}", s.name(), what, n.tag(), c.tag()),
@@ -518,8 +527,7 @@ fn replay(ctx: &Ctx, path: &std::path::Path) -> ! {
     let class = r["class"].as_str().unwrap_or("honest");
     println!("replaying {} {class} -> native {} | circuit {} => {:?}", s.name(), n.tag(), c.tag(), o);
     if matches!(o, Outcome::FalseAccept | Outcome::FalseReject) {
-        let key = format!("{}|{}|{}|native={}|circuit={}", s.driver(), class, direction(o), n.tag(), c.tag());
-        report.violation(key, format!("native {} but circuit {}", n.tag(), c.tag()), r.clone());
+        report.violation(key_of(s.driver(), class, o, &n, &c), format!("native {} but circuit {}", n.tag(), c.tag()), r.clone());
     }
     let cov = json!({"evaluations": 1, "distinct_nontrivial": 2, "rule": "replay of one stored case (native + circuit verdict)",
                      "samples": [{"shape": s.name(), "class": class, "native": n.to_json(), "circuit": c.to_json()}], "replay": true});
@@ -580,21 +588,32 @@ fn main() {
     //               thorough: all four layouts; the rotating one with ALL leaves and ALL deviations,
     //               the other three with representatives + reduced deviations.
     //   STARK     — quick: every parameter set × `STARK_PER` mixes (window rotating through the admissible
-    //               mixes, so every mix occurs); thorough: every pair. Class representatives.
+    //               mixes, so every mix occurs), class representatives; thorough: every pair, ALL leaves
+    //               for a rotating window of `STARK_ALL_PER` mixes per parameter set, representatives else.
     const STARK_PER: usize = 17;
     let mut pcs_broad: Vec<(PcsShape, LeafMode, bool)> = vec![];
-    let mut stark_broad: Vec<StarkShape> = vec![];
+    const STARK_ALL_PER: usize = 8;
+    let mut stark_broad: Vec<(StarkShape, LeafMode)> = vec![];
     let mut planned_pairs = 0u64;
-    for (pi, p) in params.iter().enumerate() {
-        let adm: Vec<&Vec<usize>> = mixes.iter().filter(|m| admissible(p, m)).collect();
-        planned_pairs += adm.len() as u64;
-        for (mi, mix) in adm.iter().enumerate() {
+    // mix-major order, three-matrix mixes first: any prefix of the list (what a slow machine still
+    // gets through) contains every parameter set, and the mixes lost at the tail are the
+    // single-matrix ones (no roll-ins)
+    for (mix_no, mix) in mixes.iter().enumerate().rev() {
+        for (pi, p) in params.iter().enumerate() {
+            if !admissible(p, mix) {
+                continue;
+            }
+            planned_pairs += 1;
+            // position of the mix among the admissible mixes of this parameter set
+            let n_adm = mixes.iter().filter(|m| admissible(p, m)).count();
+            let mi = mixes[..mix_no].iter().filter(|m| admissible(p, m)).count();
             let s = pi * 7 + mi;
             if quick {
                 pcs_broad.push((pcs_shape(p, mix, s, s), LeafMode::Representatives, false));
-                let off = (mi + adm.len() - (pi * STARK_PER) % adm.len()) % adm.len();
+                // window of STARK_PER mixes per parameter set, rotating so that every mix occurs
+                let off = (mi + n_adm - (pi * STARK_PER) % n_adm) % n_adm;
                 if off < STARK_PER {
-                    stark_broad.push(stark_shape("bb", p, mix, s));
+                    stark_broad.push((stark_shape("bb", p, mix, s), LeafMode::Representatives));
                 }
             } else {
                 for layout in 0..N_LAYOUTS {
@@ -604,7 +623,10 @@ fn main() {
                         pcs_broad.push((pcs_shape(p, mix, s, layout), LeafMode::Representatives, false));
                     }
                 }
-                stark_broad.push(stark_shape("bb", p, mix, s));
+                // all leaves for a rotating window of STARK_ALL_PER mixes per parameter set
+                let off = (mi + n_adm - (pi * STARK_ALL_PER) % n_adm) % n_adm;
+                let mode = if off < STARK_ALL_PER { LeafMode::All } else { LeafMode::Representatives };
+                stark_broad.push((stark_shape("bb", p, mix, s), mode));
             }
         }
     }
@@ -614,47 +636,66 @@ fn main() {
         "parameter_sets": params.len(), "height_mixes": mixes.len(), "admissible_(params,mix)_pairs": planned_pairs,
         "pcs_core_shapes(all leaves, all deviations)": pcs_core.len(),
         "stark_core_shapes(all leaves)": stark_core.len(),
-        "stark_other_family_shapes(representatives)": stark_families.len(),
+        "stark_other_family_shapes(kb, kbq, gl; quick: representatives, thorough: all leaves)": stark_families.len(),
         "pcs_broad_shapes": pcs_broad.len(),
         "pcs_broad_shapes_with_all_leaves_and_all_deviations": pcs_broad.iter().filter(|x| x.2).count(),
-        "stark_broad_shapes(representatives)": stark_broad.len(),
-        "pcs_extra_shapes(height-1 matrices)": pcs_extra.len(),
+        "stark_broad_shapes": stark_broad.len(),
+        "stark_broad_shapes_with_all_leaves": stark_broad.iter().filter(|x| x.1 == LeafMode::All).count(),
+        "pcs_extra_shapes(height-1 matrices; constant matrices at an intermediate height)": pcs_extra.len(),
     });
     eprintln!("[C07] planned {planned}");
 
-    // ---- sweeps. Core first, so that a slow machine loses breadth at the tail, never the core.
-    let t0 = Instant::now();
-    let mut phase_wall = BTreeMap::new();
+    // ---- sweeps. One ordered work list, handed out in order (`par_bridge`): core first, then the
+    // extra shapes, then the two broad sweeps interleaved in proportion — so a slow machine loses
+    // breadth at the tail of BOTH drivers, never the core, and every prefix spans all parameter sets.
+    enum Work<'a> {
+        Pcs(&'a PcsShape, LeafMode, bool),
+        Stark(&'a StarkShape, LeafMode),
+    }
+    let mut work: Vec<Work> = vec![];
     if want("pcs_core") {
-        pcs_core.par_iter().for_each(|sh| run_pcs_shape(&env, sh, LeafMode::All, true));
-        phase_wall.insert("pcs_core", t0.elapsed().as_secs_f64());
+        work.extend(pcs_core.iter().map(|sh| Work::Pcs(sh, LeafMode::All, true)));
     }
-    let t1 = Instant::now();
     if want("stark_core") {
-        stark_core.par_iter().for_each(|sh| run_stark_shape(&env, sh, LeafMode::All));
-        phase_wall.insert("stark_core", t1.elapsed().as_secs_f64());
+        work.extend(stark_core.iter().map(|sh| Work::Stark(sh, LeafMode::All)));
     }
-    let t1 = Instant::now();
     if want("pcs_extra") {
-        pcs_extra.par_iter().for_each(|sh| run_pcs_shape(&env, sh, LeafMode::Representatives, !quick));
-        phase_wall.insert("pcs_extra", t1.elapsed().as_secs_f64());
+        work.extend(pcs_extra.iter().map(|sh| Work::Pcs(sh, LeafMode::Representatives, !quick)));
     }
-    let t1 = Instant::now();
     if want("stark_families") {
-        stark_families.par_iter().for_each(|sh| run_stark_shape(&env, sh, LeafMode::Representatives));
-        phase_wall.insert("stark_families", t1.elapsed().as_secs_f64());
+        work.extend(stark_families.iter().map(|sh| Work::Stark(sh, if quick { LeafMode::Representatives } else { LeafMode::All })));
     }
-    let t1 = Instant::now();
-    if want("pcs_broad") {
-        pcs_broad.par_iter().for_each(|(sh, mode, all_pos)| run_pcs_shape(&env, sh, *mode, *all_pos));
-        phase_wall.insert("pcs_broad", t1.elapsed().as_secs_f64());
+    {
+        let np = if want("pcs_broad") { pcs_broad.len() } else { 0 };
+        let ns = if want("stark_broad") { stark_broad.len() } else { 0 };
+        let (mut ip, mut is) = (0usize, 0usize);
+        while ip < np || is < ns {
+            // advance the list that is proportionally behind
+            if is >= ns || (ip < np && ip * ns <= is * np) {
+                let (sh, mode, all_pos) = &pcs_broad[ip];
+                work.push(Work::Pcs(sh, *mode, *all_pos));
+                ip += 1;
+            } else {
+                work.push(Work::Stark(&stark_broad[is].0, stark_broad[is].1));
+                is += 1;
+            }
+        }
     }
-    let t1 = Instant::now();
-    if want("stark_broad") {
-        stark_broad.par_iter().for_each(|sh| run_stark_shape(&env, sh, LeafMode::Representatives));
-        phase_wall.insert("stark_broad", t1.elapsed().as_secs_f64());
-    }
-
+    let (cpu_pcs, cpu_stark) = (AtomicU64::new(0), AtomicU64::new(0));
+    work.iter().par_bridge().for_each(|w| {
+        let t = Instant::now();
+        match w {
+            Work::Pcs(sh, mode, all_pos) => {
+                run_pcs_shape(&env, sh, *mode, *all_pos);
+                cpu_pcs.fetch_add(t.elapsed().as_micros() as u64, Ordering::Relaxed);
+            }
+            Work::Stark(sh, mode) => {
+                run_stark_shape(&env, sh, *mode);
+                cpu_stark.fetch_add(t.elapsed().as_micros() as u64, Ordering::Relaxed);
+            }
+        }
+    });
+    let sweep_wall = ctx.elapsed_s();
 
     // ---- known-finding probe (one canonical shape, honest opening only): F2 of C01 seen at the
     // PCS level — a commitment round whose tallest matrix is shorter than the global maximum.
@@ -783,7 +824,8 @@ fn main() {
         "malicious_prover_native_outcomes": mal_reasons.to_json(),
         "panics_while_other_side_rejects": *totals.panics.lock().unwrap(),
         "cached_vs_fresh_circuit_mismatch": ld(&totals.cache_mismatch),
-        "phase_wall_s": phase_wall,
+        "sweep_wall_s": sweep_wall,
+        "thread_seconds[pcs,stark]": [cpu_pcs.load(Ordering::Relaxed) as f64 / 1e6, cpu_stark.load(Ordering::Relaxed) as f64 / 1e6],
         "known_finding_probe_F2": f2_probe,
         "out_of_scope_probes(parameters the circuit API does not take; recorded, not judged)": foreign,
         "both_accept_samples": both_samples,
